@@ -8,7 +8,7 @@ Ltac e4_red :=
        published to_state of_state set_th finish release_ik u_persisted u_last u_lasttx u_pending u_batch u_iks
        u_refs u_revs u_locks u_queue u_cs u_uid u_threads u_published].
 Ltac e4_thr :=
-  cbn [t_pc t_req t_postings t_unb t_view t_entry t_txid t_granted t_resp t_gen with_pc] in *.
+  cbn [t_pc t_req t_postings t_unb t_view t_entry t_txid t_granted t_resp t_gen t_cancelled with_pc with_cancelled] in *.
 
 Definition e4_same_core (u u' : upd) : Prop :=
   u_persisted u' = u_persisted u /\ u_pending u' = u_pending u /\ u_batch u' = u_batch u /\
@@ -285,6 +285,36 @@ Proof.
     + injection H as <-; e4_fin HI Hok Hpc.
 Qed.
 
+(* ---- cancellation ------------------------------------------------------------------------------------------------ *)
+(* [cancel] only sets the flag of one thread; the invariant does not read it *)
+Lemma e4_inv_cancel s t s' : e4_Inv s -> cancel s t = Some s' -> e4_Inv s'.
+Proof.
+  intros HI H. unfold cancel in H.
+  destruct (get_thread (threads s) t) as [th|] eqn:Hth; [|discriminate].
+  destruct (negb (Nat.eqb (t_gen th) (gen s))); [discriminate|].
+  destruct (pc_finished (t_pc th)); [discriminate|]. injection H as <-.
+  e4_up0 HI. apply e4_thread_ok_cancelled. exact (i_th _ HI _ _ Hth).
+Qed.
+
+(* the queued lock intent gives up: a grant received meanwhile is released (+ FIFO recheck), otherwise only the
+   queue changes; the thread finishes *)
+Lemma e4_inv_resume_cancelled s t s' : e4_Inv s -> resume_cancelled s t = Some s' -> e4_Inv s'.
+Proof.
+  intros HI H. unfold resume_cancelled in H.
+  destruct (get_thread (threads s) t) as [th|] eqn:Hth; [|discriminate].
+  destruct (negb (Nat.eqb (t_gen th) (gen s))); [discriminate|].
+  pose proof (i_th _ HI _ _ Hth) as Hok.
+  destruct (t_pc th) eqn:Hpc; try discriminate.
+  destruct (t_cancelled th); [|discriminate]. cbv zeta in H.
+  destruct (t_granted th) eqn:Eg; injection H as <-.
+  - unfold unlock. cbn [of_state u_queue u_threads u_locks u_persisted u_last u_lasttx u_pending
+                        u_batch u_iks u_refs u_revs u_cs u_uid u_published].
+    destruct (recheck (v_queue s) (threads s) (filter (fun h => negb (Nat.eqb (fst (fst h)) t)) (v_locks s)))
+      as [[q' ths'] locks'] eqn:Hr.
+    eapply (e4_inv_unlock_fin s _ t th _ q' ths' locks' HI Hr Hth); try reflexivity; try reflexivity; rewrite Hpc; discriminate.
+  - unfold dequeue. e4_fin HI Hok Hpc.
+Qed.
+
 Lemma e4_inv_step s a s' : e4_Inv s -> step s a = Some s' -> e4_Inv s'.
 Proof.
   intros HI H. destruct a; simpl in H.
@@ -293,6 +323,8 @@ Proof.
   - eapply e4_inv_persist; eauto.
   - destruct (v_batch s); [|discriminate]. injection H as <-. now apply e4_inv_crash.
   - injection H as <-. now apply e4_inv_crash.
+  - eapply e4_inv_cancel; eauto.
+  - eapply e4_inv_resume_cancelled; eauto.
 Qed.
 
 Lemma e4_inv_init : e4_Inv init.
